@@ -8,6 +8,7 @@
                        stdout: {"out": ["ok:<token>" | "err:<ExceptionClass>", ...], "second": [...]} where `second`
                        is the result of calling filter_id again on the same arguments in the same process
                        (served by functools.lru_cache unless evicted)
+  c09_impl.py multi    several Language objects with different overrides in one process (see multi())
 The public API is used to get at the language objects: LanguageContextBuilder(...).create().get_target_language()
 and Language.filter_id(instance, id_type)."""
 import json
@@ -107,8 +108,30 @@ def run():
     sys.stdout.write(json.dumps({'out': out, 'second': second}, ensure_ascii=True))
 
 
+def multi():
+    """stdin: {"objects": [{"lang": L, "overrides": {...}|null}, ...], "cases": [[id_type, string], ...], "mode": "create_all_first"|"interleaved"}
+    Several Language objects (possibly of the same language, with different configuration overrides) live in ONE process.
+    stdout: {"multi": [[result per case] per object (first use), ...], "again": [[...] per object (used again after all others)]}"""
+    doc = json.load(sys.stdin)
+    objs, first = [], []
+    if doc.get('mode') == 'interleaved':
+        for o in doc['objects']:
+            lang = language(o['lang'], o.get('overrides'))
+            objs.append(lang)
+            first.append([one(lang, ty, s) for ty, s in doc['cases']])
+    else:
+        for o in doc['objects']:
+            objs.append(language(o['lang'], o.get('overrides')))
+        for lang in objs:
+            first.append([one(lang, ty, s) for ty, s in doc['cases']])
+    again = [[one(lang, ty, s) for ty, s in doc['cases']] for lang in objs]
+    sys.stdout.write(json.dumps({'multi': first, 'again': again}, ensure_ascii=True))
+
+
 if __name__ == '__main__':
     if sys.argv[1:] == ['dump']:
         dump()
+    elif sys.argv[1:] == ['multi']:
+        multi()
     else:
         run()
